@@ -249,7 +249,7 @@ ORACLE_PROPS = {
     "fin-twice": ["C05", "C06"], "fin-without-feature": ["C05"], "finagain-in-callback": ["C12"], "unwrap-wrong": ["C13", "C12"], "unwrap-err-changed": ["C13", "C11"],
     "action-twice": ["C10"], "action-early": ["C10"], "transient-map-leaked": ["C03", "C10"], "up-none-live": ["C08"], "cyclic-alive-inside": ["C14"], "cyclic-count": ["C14"],
     "born-unfinalized": ["C05"], "born-finalized-outside": ["C05"],
-    "execs": ["C11", "C12", "C15"], "drop-unfinalized": ["C04", "C05"], "fin-reachable": ["C05", "C01", "C07"], "meta-leak": ["C09", "C03"], "not-idle-after-op": ["C07", "C12"], "last-drop-kept": ["C04", "C07"],
+    "execs": ["C11", "C12", "C15"], "drop-unfinalized": ["C04", "C05"], "fin-reachable": ["C05", "C01", "C07"], "meta-leak": ["C09", "C03"], "not-idle-after-op": ["C07", "C12"], "last-drop-kept": ["C04", "C07"], "thr-policy": ["C15"], "dec-not-buffered": ["C02", "C11", "C07"],
 }
 
 
@@ -269,6 +269,45 @@ def oracle_hits(lines):
                     hits.append((i, "T-flag", l))
                 elif re.fullmatch(r"[FDK]-?\d+:1", e):
                     hits.append((i, "cb-flag", l))
+    return hits
+
+
+def policy_hits(prog_lines, out_lines):
+    """C15 oracle on the implementation alone: after a top-level `collect_cycles()` that returned normally the byte threshold
+    is `D * 2^k`, not below `D`, strictly above allocated bytes and not needlessly high (exact rational arithmetic on the
+    bit pattern of `adjustment_percent`)."""
+    import struct
+    from fractions import Fraction
+    D = None
+    for l in prog_lines:
+        if l.startswith("consts "):
+            m = re.search(r"\bthr=(\d+)", l)
+            if m:
+                D = int(m.group(1))
+    if not D:
+        return []
+    head, ops, tail = split_prog(prog_lines)
+    pct = Fraction(struct.unpack(">d", bytes.fromhex("3fb999999999999a"))[0])   # the crate's default, 0.1
+    hits = []
+    for i, op in enumerate(ops):
+        if i >= len(out_lines):
+            break
+        o = parse_obs(out_lines[i])
+        w = op.split()
+        if not o or not w:
+            continue
+        if w[0] == "cfg" and len(w) == 3 and w[1] == "pct" and o["ret"] == "ok":
+            try:
+                pct = Fraction(struct.unpack(">d", bytes.fromhex(w[2].rjust(16, "0")))[0])
+            except Exception:
+                pass
+        if w[0] == "collect" and o["ret"] == "ok" and o["thr"].isdigit() and o["st"] and o["st"][0].isdigit():
+            r, a = int(o["thr"]), int(o["st"][0])
+            q = r // D
+            is_pow = r >= D and r % D == 0 and q & (q - 1) == 0
+            not_high = pct == 0 or a > r * pct or r // 2 <= a or r == D
+            if not (is_pow and a < r and not_high):
+                hits.append((i, "thr-policy", out_lines[i]))
     return hits
 
 
